@@ -1,6 +1,9 @@
 use crate::engine::{Ctx, EvidenceMeta, Fail, Report};
 use serde_json::Value;
 
+pub mod c08;
+pub mod c09;
+pub mod c10;
 pub mod c19;
 
 pub struct PropDef {
@@ -11,5 +14,10 @@ pub struct PropDef {
 }
 
 pub fn all() -> Vec<PropDef> {
-    vec![PropDef { id: "C19", run: c19::run, replay: c19::replay }]
+    vec![
+        PropDef { id: "C08", run: c08::run, replay: c08::replay },
+        PropDef { id: "C09", run: c09::run, replay: c09::replay },
+        PropDef { id: "C10", run: c10::run, replay: c10::replay },
+        PropDef { id: "C19", run: c19::run, replay: c19::replay },
+    ]
 }
